@@ -10,18 +10,18 @@ RULES[PID] = ("e2e leg: a debuggee with counting handlers for SIGINT/USR1/USR2/A
               "signal sent before a stepi run; distinct by case text. acct leg: single-threaded handler-counting debuggee, 1-3 windows of 0-3 kill()s "
               "followed by 0-10 stepi, then continue to exit; the same event list is run through the Coq model of the tracer (Model/Tracer.v, api_step over "
               "the kernel model) and the model's deliveries and reports are compared with the printed counters and the reported signal stops (verdict 1 on "
-              "difference), the spec is evaluated on the same case (verdict 2). Non-trivial: at least one signal sent.")
+              "difference), the spec is evaluated on the same case (verdict 2). every fifth history is directed: a non-quiet signal, 1-2 stepi (its stop is reported, it waits in the tracer queue), a quiet signal, 1-2 stepi, continue. max_pending is measured, not assumed: /proc/<pid>/status SigPnd|ShdPnd before every stepi; queue length (stops reported by steps) + kernel-pending before every continue. Non-trivial: at least one signal sent.")
 
 
 def classify(i, meta, v):
     if int(meta.get("max_pending", 0)) >= 2:
-        return ("c10-e2e:multi-pending", True, "two or more signals pending for the thread at one resume")
+        return ("c10-e2e:multi-pending", True, "two or more undelivered signals for the thread at one resume (kernel-pending at a step; tracer queue + kernel-pending at a continue)")
     return ("c10-e2e:spec", True, "a single pending signal was lost, duplicated or misreported")
 
 
 def classify_acct(i, meta, v):
     if int(meta.get("max_pending", 0)) >= 2:
-        return ("c10-e2e:multi-pending", True, "two or more signals pending for the thread at one resume")
+        return ("c10-e2e:multi-pending", True, "two or more undelivered signals for the thread at one resume (kernel-pending at a step; tracer queue + kernel-pending at a continue)")
     if v >= 2:
         return ("c10-acct:spec", True, "a single pending signal was lost, duplicated or misreported")
     return ("c10-acct:model", False, "tracer model and implementation disagree on deliveries / reports for a history that satisfies the spec")
